@@ -66,7 +66,7 @@ def cases(ctx):
                            "n_random": ctx.pick(2000, 4000), "starts": ctx.pick(10, 16)}
     if not ctx.quick:
         for cls in functions():
-            for rep in range(40):
+            for rep in range(120):
                 yield "function", {"cls": cls.__name__, "seed": ctx.subseed(cls.__name__, rep),
                                    "n_random": 3000, "starts": 12}
 
